@@ -5,6 +5,7 @@ CONSTANTS
   Dbs = {"d1"}
   Tbls = {"t1"}
   Privs = {"SELECT", "INSERT", "GRANT OPTION", "SUPER"}
+  DynPrivs = {"REPLICATION_SLAVE_ADMIN"}
   MaxSet = 1
   WithAll = FALSE
   MaxStep = 3
@@ -13,6 +14,6 @@ INIT Init
 NEXT Next
 VIEW View
 CONSTRAINT Bound
-INVARIANTS TypeOK NoOrphans RevokeInvertsGrant HierarchyMonotone StrictWithinDeviation
+INVARIANTS TypeOK NoOrphans RevokeInvertsGrant DynRevokeInvertsGrant DynGrantOptionIsGlobal HierarchyMonotone StrictWithinDeviation
 PROPERTIES DeniedNoEffect ReloadIdentity DropForgets
 CHECK_DEADLOCK FALSE
